@@ -13,7 +13,7 @@ Decided (shape engine + structural rules)
       channel list, the unwhiten flag forwarded
   A4  _load_data: merged clusters iff assignments differ and storage is dense; n_clusters = max + 1 of the respective id vector;
       identical assignments reuse the template waveforms
-Not decided: weighted-mean values, ties between dominant templates.
+Not decided: weighted-mean values; which template wins when the top spike counts are exactly tied (the statement does not define it).
 """
 import ast
 
@@ -96,14 +96,39 @@ def run(ctx):
             ctx.undecided('C08.A3', mw, '%s: result %s' % (lab, res))
     # structure: weights, dominant template, scatter
     txt = {unparse(a.targets[0]): a for a in mw.nodes(ast.Assign) if isinstance(a.targets[0], ast.Name)}
-    best = [a for a in mw.nodes(ast.Assign) if isinstance(a.value, ast.Call) and (dotted(a.value.func) or '').endswith('argmax')]
     cnt = [a for a in mw.nodes(ast.Assign) if isinstance(a.value, ast.Call) and q.method_name(a.value) == 'get_template_counts']
-    okb = bool(best) and bool(cnt) and unparse(best[0].value.args[0]) == unparse(cnt[0].targets[0]) and unparse(cnt[0].value.args[0]) == mw.params[1]
-    ctx.check(okb, 'C08.A3', mw, best[0] if best else 'get_cluster_mean_waveforms', 'the dominant template is the arg-max of the per-template spike counts of THIS cluster',
-              'the dominant template is not argmax(get_template_counts(cluster_id))')
     gt = [c for c in mw.calls() if q.method_name(c) == 'get_template']
-    okc = bool(best) and any(unparse(c.args[0]) == unparse(best[0].targets[0]) for c in gt if c.args)
-    ctx.check(okc, 'C08.A3', mw, gt[0] if gt else 'get_cluster_mean_waveforms', 'the channel list is that of the dominant template', 'the channel list is not taken from the dominant template')
+    # the template whose channel list is used: the first get_template call that is not inside a loop / comprehension over the contributors
+    lone = [c for c in gt if c.args and not any(isinstance(x, (ast.For, ast.ListComp, ast.GeneratorExp)) for x in mw.ancestors(c))]
+    if not lone or not cnt:
+        ctx.undecided('C08.A3', mw, 'the lookup of the dominant template (a get_template call outside the loop over contributors) was not found')
+    else:
+        c0 = lone[0]
+        arg = c0.args[0]
+        # all definitions that feed the argument, in source order, up to the call
+        defs = [a for a in mw.nodes(ast.Assign) if a.lineno < c0.lineno]
+        chain, names = [], {n.id for n in ast.walk(arg) if isinstance(n, ast.Name)}
+        for a in reversed(defs):
+            if unparse(a.targets[0]) in names:
+                chain.append(a)
+                names |= {n.id for n in ast.walk(a.value) if isinstance(n, ast.Name)}
+        text = ' ; '.join(unparse(a.value) for a in chain).replace(' ', '') + ' ; ' + unparse(arg).replace(' ', '')
+        cname = unparse(cnt[0].targets[0])
+        from_counts = unparse(cnt[0].value.args[0]) == mw.params[1] if cnt[0].value.args else False
+        restricted_before = any(unparse(a.targets[0]) == cname and a is not cnt[0] for a in chain)
+        if not from_counts:
+            ctx.violated('C08.A3', mw, cnt[0], 'the per-template spike counts are not those of THIS cluster (get_template_counts(%s))' % (unparse(cnt[0].value.args[0]) if cnt[0].value.args else ''))
+        elif 'argmin' in text:
+            ctx.violated('C08.A3', mw, c0, 'the channel list is taken from the template with the FEWEST spikes of the cluster (argmin), not from the dominant one')
+        elif 'argmax' in text and not restricted_before:
+            ctx.holds('C08.A3', mw, 'the dominant template is the arg-max of the per-template spike counts of this cluster, and its channel list is used', c0)
+        elif ('argmax' in text or ('argsort' in text and ('[::-1]' in text or '[-1]' in text))) and restricted_before and any(
+                isinstance(n, ast.Subscript) and isinstance(n.value, ast.Name) for a in chain[:1] for n in [a.value]):
+            ctx.holds('C08.A3', mw, 'the dominant template is the contributing template with the largest spike count, and its channel list is used', c0)
+        elif 'arg' not in text and any(t_ in text for t_ in ('[0]', '[-1]')) and 'nonzero' in text:
+            ctx.violated('C08.A3', mw, c0, 'the channel list is taken from the first / last contributing template (`%s`), not from the one with most spikes' % unparse(arg))
+        else:
+            ctx.undecided('C08.A3', mw, 'selection of the dominant template `%s` not recognised' % text[:80], c0)
     fw = all(q.kwarg(c, 'unwhiten') is not None and unparse(q.kwarg(c, 'unwhiten')) == mw.params[2] for c in gt) and len(gt) >= 2
     ctx.check(fw, 'C08.A3', mw, 'unwhiten flag', 'the unwhiten flag is forwarded to every template lookup', 'the unwhiten flag is not forwarded to every get_template call')
     avg = [c for c in mw.calls() if dotted(c.func) == 'np.average']
@@ -152,6 +177,32 @@ def run(ctx):
         okm = cond in ('len(val)>1', 'len(val)>=2') and const_value(q.kwarg(multi[0], 'unwhiten')) is False and unparse(multi[0].args[0]) == unparse(cw.nodes(ast.For)[0].target.elts[0])
     ctx.check(okm, 'C08.A2', cw, multi[0] if multi else 'cluster_waveforms', 'a cluster stemming from several templates stores their (whitened) weighted mean',
               'multi-template clusters do not store get_cluster_mean_waveforms(cluster, unwhiten=False)')
+    # the mean stored for a cluster is computed FOR THAT cluster (it depends on the cluster's own spike counts, not only on its set of templates)
+    if multi:
+        loop = [f for f in cw.nodes(ast.For) if q.contains(f, multi[0])]
+        cvar = unparse(loop[0].target.elts[0]) if loop and isinstance(loop[0].target, ast.Tuple) else (unparse(loop[0].target) if loop else None)
+        stores = [a for a in cw.nodes(ast.Assign) if isinstance(a.targets[0], ast.Subscript) and unparse(a.targets[0].value) == 'data' and 'mean_waveforms' in unparse(a.value)]
+        verdict = None
+        if stores and loop:
+            src = [n.value.id for n in ast.walk(stores[0].value) if isinstance(n, ast.Attribute) and n.attr == 'mean_waveforms' and isinstance(n.value, ast.Name)]
+            defs_ = [a for a in ast.walk(loop[0]) if isinstance(a, ast.Assign) and src and unparse(a.targets[0]) == src[0]]
+            if defs_:
+                v = defs_[-1].value
+                if isinstance(v, ast.Call) and q.method_name(v) == 'get_cluster_mean_waveforms':
+                    extra = [i for i in cw.ancestors(v) if isinstance(i, ast.If) and q.contains(loop[0], i) and 'len(' not in unparse(i.test)]
+                    verdict = 'cond' if extra else 'ok'
+                    cache_key = unparse(extra[0].test) if extra else ''
+                elif isinstance(v, ast.Subscript) or (isinstance(v, ast.Call) and q.method_name(v) in ('get', 'setdefault')):
+                    key = unparse(v.slice) if isinstance(v, ast.Subscript) else (unparse(v.args[0]) if v.args else '')
+                    verdict = 'ok' if key == cvar else 'cache'
+                    cache_key = key
+        if verdict == 'ok':
+            ctx.holds('C08.A2', cw, 'the mean waveform stored for a cluster is the one computed for that cluster in the same iteration', stores[0])
+        elif verdict in ('cache', 'cond'):
+            ctx.violated('C08.A2', cw, stores[0], 'the mean waveform stored for a cluster is looked up / computed under `%s`, not computed for this cluster: clusters sharing that key '
+                         'receive the weighted mean and channels of another cluster, although the weights are each cluster\'s own spike counts' % cache_key)
+        else:
+            ctx.undecided('C08.A2', cw, 'provenance of the stored mean waveform not recognised')
     # ---- A4
     ld = meth('_load_data')
     br = None
